@@ -196,6 +196,43 @@ def check_spec(label, spec):
     except Exception as e:  # noqa
         out.append(("C09/load-of-valid-message-raises:%s" % type(e).__name__,
                     label))
+    # a record listed twice in its parent (same UUID, same content): the file
+    # may be rejected, but a loaded IR must hold ONE object for that UUID
+    for which in ("symbols", "proxies", "sections", "byte_intervals",
+                  "blocks"):
+        try:
+            msg = irgen.spec_to_message(spec, PV)
+            done = False
+            for pm in msg.modules:
+                lists = []
+                if which in ("symbols", "proxies", "sections"):
+                    lists.append(getattr(pm, which))
+                else:
+                    for ps in pm.sections:
+                        if which == "byte_intervals":
+                            lists.append(ps.byte_intervals)
+                        else:
+                            lists += [pb.blocks for pb in ps.byte_intervals]
+                for L in lists:
+                    if len(L) and not done:
+                        L.add().CopyFrom(L[0])
+                        done = True
+            if not done:
+                continue
+            data = irgen.file_bytes(msg, PV)
+        except Exception as e:  # noqa
+            out.append(("C09/harness-duplicate-record:%s" % type(e).__name__,
+                        "%s %s" % (label, which)))
+            continue
+        try:
+            y = g.IR.load_protobuf_file(io.BytesIO(data))
+        except Exception:  # noqa
+            continue
+        try:
+            out += identity_check(label, y, "record-listed-twice:" + which)
+        except Exception as e:  # noqa
+            out.append(("C09/loaded-ir-unreadable:%s" % type(e).__name__,
+                        "%s record-listed-twice:%s" % (label, which)))
     return out
 
 
